@@ -5,7 +5,7 @@ A case is one life of a small Burrow: configuration + a list of events
     ("T", now)                              the clock moves (seconds)
     ("K", cluster, order, key, value, tag)  the reader of `cluster` consumes one offsets-topic message (bytes)
     ("Y", cluster, cycle)                   the cluster module of `cluster` runs one getOffsets cycle in the scripted
-                                            environment `cycle` (the dict clustergen.parse produces for one cycle)
+                                            environment `cycle` (a cycle dict, see _scenario)
     ("S", cluster, group, order)            two evaluator requests for (cluster, group): order 0 = full view then
                                             problems-only view, 1 = the reverse
     ("L", cluster)                          the consumer list of the cluster (StorageFetchConsumers)
@@ -17,12 +17,11 @@ emitted in that cycle) is filled in by `render` from the output of the cluster p
 
 The oracle (`Oracle`) recomputes from the EVENTS ALONE - bytes, scripted broker answers, clock - what the end-to-end
 statements demand of every status reply; it shares no code with the Coq model (its commit decoder is strict_commit below,
-its reading of a cluster cycle is the text of C11/C12)."""
+its reading of a cluster cycle is the text of C11/C12,
+refreshed_snapshot / expected_updates below)."""
 import struct
 
 import sys
-
-import clustergen
 
 try:                      # only the hostile byte stream is borrowed from the wire layer, and only if it still looks the same
     import wiregen as _wiregen
@@ -285,7 +284,7 @@ def topic_name(t):
 
 
 # ------------------------------------------------------------------------------------------------
-# cluster cycles: tokens <-> dict (the dict format of clustergen.parse)
+# cluster cycles: dict -> tokens
 # ------------------------------------------------------------------------------------------------
 
 def cycle_tokens(cyc):
@@ -305,7 +304,7 @@ def cycle_tokens(cyc):
 def cluster_lines(case):
     """one scenario line per cluster that has at least one cycle: (cluster id, line).  Kind sc2 of the cluster probe: the
     module is configured through the real Configure with the scenario's client-profile kafka-version (index into
-    clustergen.KAFKA_VERSIONS; the scripted broker answers in the wire format of the request version it is asked in),
+    the cluster probe's table of legal kafka-version strings; the scripted broker answers in the wire format of the request version it is asked in),
     buffered storage channel, no storage stall; rp / rm (reaper tick, failing RefreshMetadata call) as generated."""
     out = []
     for c, _, _ in case["clusters"]:
@@ -320,7 +319,7 @@ def cluster_lines(case):
 
 
 def render(case, cluster_out):
-    """cluster_out: {cluster id: parsed output of the cluster probe (clustergen.parse_out)}"""
+    """cluster_out: {cluster id: parsed output of the cluster probe (parse_cluster_out)}"""
     check_lists(case)
     cf = case["config"]
     toks = ["pipe", str(cf["intervals"]), str(cf["expire"]), str(cf["mindist"]), str(cf["minimum"]), str(cf["allowed"]),
@@ -372,18 +371,206 @@ class ClusterCrashed(Exception):
 # generation
 # ------------------------------------------------------------------------------------------------
 
+# ------------------------------------------------------------------------------------------------
+# PIPE's OWN cluster scenarios, expectations and reading of the cluster probe's output.  (They used to come from
+# clustergen.py, another builder's file whose cycle dicts and helper signatures changed under PIPE twice.)  What remains
+# foreign is the cluster PROBE's interface: the `sc2` case line and its "M. F. R .. U .. D .." output line.
+# ------------------------------------------------------------------------------------------------
+N_KAFKA_VERSIONS = 19      # legal client-profile kafka-version strings the cluster probe configures by index (0 = unset)
+KERRORS = [3, 6, 5, 1, -1, 9, 7, 43]
+
+
+def _new_topic(rng, nb):
+    n = rng.choice([1, 1, 2, 2, 3, 3, 4, 5, 6])
+    base = rng.choice([0, 1, 1000, 10 ** 6, rng.randrange(0, 10 ** 12), 2 ** 62, I64MAX - 10 ** 6])
+    return {"present": True, "ids": list(range(n)),
+            "leader": {p: (None if rng.random() < 0.2 else rng.randrange(1, nb + 1)) for p in range(n)},
+            "off": {p: base + rng.randrange(0, 1000) for p in range(n)}, "keep_rows": False, "ever": False}
+
+
 def _scenario(rng, bias):
-    """a cluster scenario whose environments meet the pipeline's assumptions: partition ids 0..n-1, an offset in every
-    ErrNoError answer (clustergen scripts the others on purpose: 'weird', 'scnx')"""
-    for _ in range(200):
-        line, tags = clustergen.gen_scenario(rng, 0, bias=bias, crash_p=0.0)
-        if line.split()[0] in ("scnx", "sc2x") or any(t.startswith("weird:") for t in tags):
+    """1-6 consecutive getOffsets cycles of one cluster module in environments that meet the pipeline's assumptions
+    (partition ids 0..n-1; an offset in every ErrNoError answer; one leader per partition within a cycle).
+    -> (list of cycle dicts, tags).  cycle dict: kv, rp, rm, tick, topics_ok, topics, table {t: (parts_ok, ids, {p: (leader|-1,
+    kerror, offsets)})}, failing (set of broker ids)."""
+    tags = set()
+    tb = bias == "topics"
+    ntop, nb = rng.randint(1, 4), rng.randint(1, 3)
+    world = {}
+    for t in range(1, ntop + 1):
+        world[t] = _new_topic(rng, nb)
+        if rng.random() < 0.15:
+            world[t]["present"] = False
+    kv = rng.randrange(0, N_KAFKA_VERSIONS)
+    tags.add("kafka-version-index:%d" % kv)
+    cycles = []
+    for c in range(rng.randint(1, 6)):
+        if c > 0:
+            for t, tw in list(world.items()):
+                if tw["present"]:
+                    r = rng.random()
+                    if r < (0.25 if tb else 0.12):
+                        tw["present"], tw["keep_rows"] = False, rng.random() < 0.5
+                        tags.add("topic-vanishes")
+                    elif r < (0.35 if tb else 0.20):
+                        for p in tw["ids"]:
+                            tw["leader"][p] = None
+                        tags.add("topic-loses-all-leaders")
+                    elif r < (0.40 if tb else 0.28) and len(tw["ids"]) < 6:
+                        p = len(tw["ids"])
+                        tw["ids"].append(p)
+                        tw["leader"][p] = None if rng.random() < 0.2 else rng.randrange(1, nb + 1)
+                        tw["off"][p] = rng.randrange(0, 1000)
+                        tags.add("partition-added")
+                    for p in tw["ids"]:
+                        r = rng.random()
+                        if r < 0.12:
+                            old = tw["leader"][p]
+                            tw["leader"][p] = rng.randrange(1, nb + 1)
+                            if old != tw["leader"][p]:
+                                tags.add("leader-gained" if old is None else "leader-change")
+                        elif r < 0.17:
+                            if tw["leader"][p] is not None:
+                                tags.add("leader-lost")
+                            tw["leader"][p] = None
+                elif rng.random() < (0.5 if tb else 0.35):
+                    was = tw["ever"]
+                    if rng.random() < 0.5:
+                        tw = world[t] = _new_topic(rng, nb)
+                        tw["ever"] = was
+                    tw["present"] = True
+                    tags.add("topic-reappears" if was else "topic-appears")
+        for tw in world.values():
+            if tw["present"]:
+                tw["ever"] = True
+            for p in tw["ids"]:
+                tw["off"][p] = min(I64MAX, tw["off"][p] + rng.choice([0, 1, 5, 100, 10 ** 4]))
+        tick = rng.random() < (0.85 if c == 0 else (0.7 if tb else 0.4))
+        topics_ok = True
+        if rng.random() < (0.2 if tb else 0.15):
+            topics_ok = False
+            tags.add("fault:topic-list")
+        parts_fail = set()
+        if rng.random() < (0.2 if tb else 0.15):
+            parts_fail.add(rng.randint(1, ntop))
+            tags.add("fault:partition-list")
+        all_tp = [(t, p) for t, tw in world.items() for p in tw["ids"]]
+        leader_fail = set()
+        if all_tp and rng.random() < 0.15:
+            for _ in range(rng.choice([1, 1, 2])):
+                leader_fail.add(rng.choice(all_tp))
+            tags.add("fault:leader-lookup")
+        failing = set()
+        if rng.random() < 0.15:
+            failing = set(rng.randrange(1, nb + 1) for _ in range(rng.choice([1, 1, 2])))
+            tags.add("fault:broker-call")
+        part_err = {}
+        if all_tp and rng.random() < 0.15:
+            for _ in range(rng.choice([1, 1, 2, 3])):
+                part_err[rng.choice(all_tp)] = rng.choice(KERRORS)
+            tags.add("fault:partition-error")
+        rp = c > 0 and rng.random() < 0.08
+        rm = rng.random() < 0.08
+        if rm:
+            tags.add("fault:refresh-metadata-call")
+        tlist = [t for t, tw in world.items() if tw["present"]]
+        rng.shuffle(tlist)
+        table = {}
+        for t, tw in world.items():
+            if not tw["present"] and not tw["keep_rows"]:
+                continue
+            rows = {}
+            for p in tw["ids"]:
+                ld = tw["leader"][p]
+                if (t, p) in leader_fail or (not tw["present"] and rng.random() < 0.5):
+                    ld = None
+                err = part_err.get((t, p), 0)
+                if not tw["present"] and err == 0 and rng.random() < 0.6:
+                    err = 3
+                offs = [tw["off"][p]]
+                if rng.random() < 0.05:
+                    offs.append(rng.randrange(0, 1000))
+                if err != 0 and rng.random() < 0.7:
+                    offs = []
+                rows[p] = (-1 if ld is None else ld, err, offs)
+            table[t] = (t not in parts_fail, list(tw["ids"]), rows)
+        cycles.append({"kv": kv, "rp": rp, "rm": rm, "tick": tick, "topics_ok": topics_ok, "topics": tlist,
+                       "table": table, "failing": failing})
+    return cycles, tags
+
+
+def _leader(cyc, t, p):
+    row = cyc["table"].get(t)
+    if row is None or p not in row[2]:
+        return None
+    ld = row[2][p][0]
+    return None if ld < 0 else ld
+
+
+def _answer(cyc, t, p):
+    row = cyc["table"].get(t)
+    if row is None or p not in row[2]:
+        return (3, [])
+    return row[2][p][1], row[2][p][2]
+
+
+def refreshed_snapshot(cyc):
+    """the metadata a complete refresh of this cycle reads: topic -> (partitions with a leader, partition count), or None
+    when the topic list or some partition list cannot be read (C12: the refresh is abandoned, nothing is deleted)"""
+    if not cyc["topics_ok"] or not all(cyc["table"].get(t, (False,))[0] for t in cyc["topics"]):
+        return None
+    snap = {}
+    for t in cyc["topics"]:
+        parts = cyc["table"][t][1]
+        snap[t] = ([p for p in parts if _leader(cyc, t, p) is not None], len(parts))
+    return snap
+
+
+def expected_updates(cyc, snap):
+    """C11's text on one cycle: for every partition the last complete metadata read knows a leader for, the broker that leads
+    it NOW is asked; a successful call with ErrNoError records the first offset with the topic's partition count.
+    -> (updates {(t, p, offset, count)}, an unknown leader or a per-partition error obliges a re-read)"""
+    want, reread = set(), False
+    for t, (ids, count) in snap.items():
+        for p in ids:
+            ld = _leader(cyc, t, p)
+            if ld is None:
+                reread = True
+                continue
+            if ld in cyc["failing"]:
+                continue
+            err, offs = _answer(cyc, t, p)
+            if err != 0:
+                reread = True
+            elif offs:
+                want.add((t, p, offs[0], count))
+            else:
+                raise ValueError("scenario with an ErrNoError answer without offsets: outside the pipeline's assumptions")
+    return want, reread
+
+
+def parse_cluster_out(line):
+    """the cluster probe's output line -> per cycle {"D": [(t,)], "U": [(t, p, off, count)]} or "CRASH" / "HANG";
+    raises ValueError on a line that does not look like `M. F. R <..> U <..> D <..>` (format owned by probes/cluster)"""
+    res = []
+    for part in line.split(" | "):
+        part = part.strip()
+        if part in ("CRASH", "HANG"):
+            res.append("CRASH")
             continue
-        cycles = clustergen.parse(line)
-        if cycles and cycles[0].get("rp"):
-            cycles[0]["rp"] = False          # the reaper tick follows a cycle that went through mainLoop, not Start()'s
-        return cycles, tags
-    raise RuntimeError("no acceptable cluster scenario")
+        f = part.split()
+        if len(f) < 8 or f[2] != "R" or f[4] != "U" or f[6] != "D":
+            raise ValueError("unexpected output of the cluster probe: %r" % part[:200])
+
+        def items(x, width):
+            if x == "-":
+                return []
+            out = sorted(tuple(int(v) for v in it.split(":")) for it in x.split(","))
+            if any(len(it) != width for it in out):
+                raise ValueError("unexpected item width in the cluster probe's output: %r" % x[:200])
+            return out
+        res.append({"U": items(f[5], 4), "D": items(f[7], 1)})
+    return res
 
 
 def _near(rng, b):
@@ -796,19 +983,17 @@ class Oracle:
         st = self.cl[c]
         refresh = st.flag or cyc["tick"]
         st.flag = False
-        new = clustergen._refreshed_snapshot(cyc) if refresh else None
+        new = refreshed_snapshot(cyc) if refresh else None
         if new is not None:
             if st.ghost is not None:
                 for t in st.ghost:
                     if t not in new:
                         self.delete_topic(c, t)
             st.ghost = new
-        snap = st.ghost or {}
-        _, want_u, unknown_leader, partition_error, undefined = clustergen._expect(cyc, snap)
-        assert not undefined
+        want_u, reread = expected_updates(cyc, st.ghost or {})
         for (t, p, off, cnt) in want_u:
             st.broker[(t, p)] = off
-        st.flag = unknown_leader or partition_error
+        st.flag = reread
 
     def delete_topic(self, c, t):
         st = self.cl[c]
@@ -848,13 +1033,17 @@ class Oracle:
         if tid is None or (tid, p) not in st.broker:
             self.stats["dropped:no-broker-offset"] = self.stats.get("dropped:no-broker-offset", 0) + 1
             return
-        grp = st.groups.setdefault(g, {"last": 0, "parts": {}})
+        grp = st.groups.setdefault(g, {"last": 0, "lastmax": 0, "parts": {}})
         lst = grp["parts"].setdefault((t, p), [])
         if any(x["order"] == order for x in lst):
             self.stats["dropped:replay"] = self.stats.get("dropped:replay", 0) + 1
             return
         if not lst or order > max(x["order"] for x in lst):
+            # the group's last-commit time: the timestamp of the commit placed as the newest.  Whether an OLDER timestamp may
+            # move it backwards is not an end-to-end matter (C09 / builder del: lastCommit := max): both readings are kept
+            # and the expiry demands below are made only where they agree
             grp["last"] = ts
+            grp["lastmax"] = max(grp["lastmax"], ts)
         lst.append(dict(order=order, offset=off, ts=ts))
         self.stats["live_commits"] = self.stats.get("live_commits", 0) + 1
 
@@ -868,7 +1057,17 @@ class Oracle:
             return ["%s: malformed answer %r" % (where, answers)]
         grp = st.groups.get(g)
         live = {k: v for k, v in (grp["parts"].items() if grp else []) if v}
-        expired = grp is not None and (self.now - self.cf["expire"]) * 1000 > grp["last"]
+        lim = (self.now - self.cf["expire"]) * 1000
+        expired = grp is not None and lim > grp["last"]
+        if grp is not None and expired != (lim > grp["lastmax"]):
+            # the two readings of the last-commit time disagree: nothing about expiry is demanded of this answer; what the
+            # implementation answered decides how the oracle goes on
+            if not full["found"]:
+                st.groups.pop(g, None)
+            self.stats["expiry_reading_ambiguous"] = self.stats.get("expiry_reading_ambiguous", 0) + 1
+            if not self.visible(c, g) and (full["found"] or filt["found"]):
+                return ["%s: group %r is rejected by the lists but a status was served" % (where, g)]
+            return []
         if expired:
             st.groups.pop(g, None)         # the first of the two requests purges the group
         if not self.visible(c, g):
@@ -958,7 +1157,8 @@ class Oracle:
                 fails.append("%s: group %r is rejected by the lists but listed" % (where, g))
         for g, grp in self.cl[c].groups.items():
             live = any(v for v in grp["parts"].values())
-            if live and not (self.now - self.cf["expire"]) * 1000 > grp["last"] and g not in names:
+            lim = (self.now - self.cf["expire"]) * 1000
+            if live and not lim > grp["last"] and not lim > grp["lastmax"] and g not in names:
                 fails.append("%s: group %r has accepted commits but is not listed" % (where, g))
         self.stats["listings"] = self.stats.get("listings", 0) + 1
         return fails
